@@ -136,7 +136,7 @@ CHECKS["C06"] = dict(
           "unchanged by deleting the null-key rows (dropNull_at_rank rank lemma + prefix theorems), and a null-key row receives a marker that depends on no "
           "other row; the obligation all_guards_present ties this to the `key < 0` guards of the current source (extracted by the translator for nine loops). "
           "Metamorphic correspondence: every public operation (reductions, transform, cumulative, rolling, shift/diff, EMA, head/tail/nth, groups, "
-          "group_nearby_members; source level (new): source_null_rows_inert_reduction, source_cum_null_rows_inert, source_cum_null_row_marker relate two runs of the translated loops) on data with nulls in any key position (single keys also behind a two-chunk arrow key with chunk-local codes) vs the same data with those rows deleted; constancy of the marker."),
+          "group_nearby_members; source level (new): source_null_rows_inert_reduction, source_cum_null_rows_inert, source_cum_null_row_marker relate two runs of the translated loops; group_nearby_members is translated and bridged (LoopBridge/Nearby) with source_nearby_spec - what every row's sub-group number is - and source_nearby_null_rows_inert) on data with nulls in any key position (single keys also behind a two-chunk arrow key with chunk-local codes) vs the same data with those rows deleted; constancy of the marker."),
     note="Row selection is covered at the model level by its own property (C15) and here by the metamorphic run.",
     technique="Lean 4 proof (corollaries of kernel contract / prefix theorems via a rank lemma; source guard facts) + metamorphic differential testing",
     design="§7 C06",
